@@ -102,6 +102,13 @@ def L_append(ty, t, x):
     return L_mk(ty, n + 1, z3.Store(L_arr(ty, t), n, x))
 
 
+def L_has(ty, t, x, upto=None):
+    """x occurs among the first `upto` elements (default: all) of the list."""
+    j = z3.Int('j!has')
+    n = L_len(ty, t) if upto is None else upto
+    return z3.Exists([j], z3.And(j >= 0, j < n, L_get(ty, t, j) == x))
+
+
 def L_empty(ty):
     s = sort_of(ty)
     return s.mk(z3.IntVal(0), z3.Const(fresh_name('emptyarr'),
@@ -164,3 +171,32 @@ def T_get(ty, t, i):
 
 def T_mk(ty, *xs):
     return sort_of(ty).mk(*xs)
+
+
+def wf(v, depth=0):
+    """Well-formedness facts of a symbolic value: list lengths are non-negative (also for
+    the elements of a list of lists, and inside options / tuples)."""
+    ty, t = v.ty, v.t
+    out = []
+    if t is None or isinstance(t, (int, str)):
+        return out
+    if isinstance(ty, ListT):
+        out.append(L_len(ty, t) >= 0)
+        if depth < 2 and isinstance(ty.elem, (ListT, TupleT, OptT)):
+            j = z3.Int('j!wf%d' % depth)
+            inner = wf(V(ty.elem, L_get(ty, t, j)), depth + 1)
+            if inner:
+                out.append(z3.ForAll([j], z3.And(*inner), patterns=[L_get(ty, t, j)]))
+    elif isinstance(ty, OptT):
+        inner = wf(V(ty.t, O_val(ty, t)), depth)
+        if inner:
+            out.append(z3.Implies(z3.Not(O_is_none(ty, t)), z3.And(*inner)))
+    elif isinstance(ty, TupleT):
+        for i, et in enumerate(ty.elems):
+            out += wf(V(et, T_get(ty, t, i)), depth)
+    elif isinstance(ty, DictT) and depth < 2 and isinstance(ty.v, (ListT,)):
+        k = z3.Const('k!wf%d' % depth, sort_of(ty.k))
+        inner = wf(V(ty.v, D_get(ty, t, k)), depth + 1)
+        if inner:
+            out.append(z3.ForAll([k], z3.And(*inner), patterns=[D_get(ty, t, k)]))
+    return out
